@@ -513,7 +513,11 @@ fn layouts() -> Vec<Layout> {
     for pad in [0usize, 2, 4] {
       for own in [false, true] {
         let c_line = if own { pad + 2 } else { pad };
-        for prefix in ["", "q = ", "é = "] {
+        // a prefix of more than 512 bytes on the match line (pad 0 only: beyond its look-back window
+        // the implementation deliberately takes a line's indentation to be 0, which is then right)
+        let long_prefix = format!("q = [{}1] + ", "1, ".repeat(174));
+        let prefixes: Vec<&str> = if pad == 0 { vec!["", "q = ", "é = ", &long_prefix] } else { vec!["", "q = ", "é = "] };
+        for prefix in prefixes {
           let site_small = lead == "z;\n" && pad == 2 && prefix == "q = ";
           let rt = lead == "z;\n" && prefix == "q = ";
           let head = format!("{lead}{}{prefix}f(", spaces(pad));
